@@ -314,6 +314,11 @@ func propC11RoundTrip(col *ev.Collector) func(rt *rapid.T) {
 			col.Case(nt, hashOf(d), func() interface{} { return cs.Show(d) }, cls...)
 		}
 		do(cs.Op{Kind: "createcoll", Coll: "A"})
+		if rapid.Bool().Draw(rt, "nested-index") {
+			// an index on a nested path: maintaining it reads the path on every written document,
+			// also on those holding a scalar where the path expects an object
+			do(cs.Op{Kind: "createindex", Coll: "A", Field: rapid.SampledFrom([]string{"n.deep", "x.a", "s.k", "deep.a.b"}).Draw(rt, "nested-index-field")})
+		}
 		d0, d1, d2 := mkdoc(gen.Id(0)), mkdoc(gen.Id(1)), mkdoc(gen.Id(2))
 		do(cs.Op{Kind: "insert", Coll: "A", Docs: []cs.Doc{d0, d1}})
 		do(cs.Op{Kind: "save", Coll: "A", Docs: []cs.Doc{d2}}) // unknown id: ErrDocumentNotExist by the model
